@@ -30,5 +30,7 @@ ENGINE = {'name': 'router',
               'layer4/connection.go: prefetch size test and chunking; Read outside matching as far as io.ReadFull of k bytes needs (buffer first, reset when drained)',
               'modules/l4subroute/handler.go: Handle',
               'not modelled: Provision / module loading, SetReadDeadline returning an error, reads that return data together with an error, work done by a handler after next returns'],
- 'assumptions': ['matchers are functions of the bytes available for matching and of the constant connection environment; they take no model time',
+ 'assumptions': ['the model is run with fuel need_rs rs; compile_total / model_run_total (props/C02.v) prove that this never returns Exhausted on scripts without empty chunks (the engine generates none)',
+                 'ESkip and ENext are ghost events of the model (cached verdict used; handler chain handed the connection on) and are projected away before the comparison',
+                 'matchers are functions of the bytes available for matching and of the constant connection environment; they take no model time',
                  'cache_sound / decided_match_not_skipped assume the routes\' matcher sets are No-stable (property C06)']}
